@@ -16,7 +16,7 @@ from .. import tinylang as T
 PROPERTY = 'C04'
 RULE = ('(a) G_lang specifications printed as MAL text by the harness printer (minimal parenthesisation, random '
         'layout: multiplicity spellings, Name vs Name(), comments, association block sizes) and compiled: the '
-        'result must be deep-equal to the specification; (b) the two specifications shipped in tests/testdata/*.mar '
+        'result must be deep-equal to the specification - also for free-form (untyped) expression and TTC trees of depth <= 4, which the compiler accepts because it does not type-check; (b) the two specifications shipped in tests/testdata/*.mar '
         '(produced by the reference compiler malc) printed and compiled: identical result; (c) hand-written '
         'sources with hand-derived expected trees pinning precedence / associativity of set operators, dots, '
         'star / subtype suffixes, TTC arithmetic and every multiplicity form; (d) the same declarations '
@@ -281,6 +281,61 @@ def _shipped(tier):
                    'layout': {'assign': [0, 0, 0, 1, 2, 1, 3, 0, 2, 3] * 4, 'parent': [0, 0, 1, 0], 'repeat': [1, 3]}}
 
 
+# ---- free-form expression and TTC trees (the compiler does not type-check, so any shape is a valid program) ----
+
+def _free_expr(draw, depth, last):
+    """arbitrary expression tree; `last` = this sub-tree is in the position whose final name is the attack step"""
+    names = ['a', 'b', 'c', 'd', 'e', 'f']
+    k = draw(st.integers(0, 9)) if depth > 0 else 0
+    if k <= 2:
+        if last:
+            return {'type': 'attackStep', 'name': draw(st.sampled_from(['s', 't']))}
+        if draw(st.integers(0, 4)) == 0:
+            return {'type': 'variable', 'name': draw(st.sampled_from(['va', 'vb']))}
+        return {'type': 'field', 'name': draw(st.sampled_from(names))}
+    if k <= 5:
+        return {'type': 'collect', 'lhs': _free_expr(draw, depth - 1, False), 'rhs': _free_expr(draw, depth - 1, last)}
+    if last:
+        # the step name must be the last component: wrap a non-last tree
+        return {'type': 'collect', 'lhs': _free_expr(draw, depth, False),
+                'rhs': {'type': 'attackStep', 'name': draw(st.sampled_from(['s', 't']))}}
+    if k <= 7:
+        return {'type': draw(st.sampled_from(['union', 'intersection', 'difference'])),
+                'lhs': _free_expr(draw, depth - 1, False), 'rhs': _free_expr(draw, depth - 1, False)}
+    if k == 8:
+        return {'type': 'subType', 'subType': draw(st.sampled_from(['X', 'Y'])),
+                'stepExpression': _free_expr(draw, depth - 1, False)}
+    return {'type': 'transitive', 'stepExpression': _free_expr(draw, depth - 1, False)}
+
+
+def _free_ttc(draw, depth):
+    k = draw(st.integers(0, 9)) if depth > 0 else 0
+    if k <= 3:
+        if draw(st.integers(0, 3)) == 0:
+            return {'type': 'number', 'value': draw(st.sampled_from([0.0, 1.0, 2.5, 10.0, 0.125]))}
+        name, nargs = draw(st.sampled_from([('Exponential', 1), ('Gamma', 2), ('Bernoulli', 1), ('Infinity', 0), ('Zero', 0)]))
+        return {'type': 'function', 'name': name,
+                'arguments': [draw(st.sampled_from([0.5, 1.0, 3.0, 0.25])) for _ in range(nargs)]}
+    t = draw(st.sampled_from(['addition', 'subtraction', 'multiplication', 'division', 'exponentiation']))
+    return {'type': t, 'lhs': _free_ttc(draw, depth - 1), 'rhs': _free_ttc(draw, depth - 1)}
+
+
+@st.composite
+def freeform_cases(draw):
+    """a two-asset language whose steps carry arbitrary expression / TTC trees"""
+    steps = []
+    for i, n in enumerate(['s', 't', 'u']):
+        reaches = [_free_expr(draw, 4, True) for _ in range(draw(st.integers(1, 3)))]
+        steps.append(T.step(n, draw(st.sampled_from(['or', 'and'])), reaches=reaches,
+                            overrides=True, ttc=_free_ttc(draw, 4) if draw(st.booleans()) else None))
+    steps.append(T.step('w', 'exist', requires=[_free_expr(draw, 3, False)]))
+    variables = [('va', _free_expr(draw, 3, False)), ('vb', _free_expr(draw, 2, False))]
+    spec = T.lang([T.asset('X', steps, variables=variables), T.asset('Y', [T.step('s', reaches=[_free_expr(draw, 3, True)], overrides=False)], parent='X')],
+                  [T.assoc('L', 'X', 'a', 'X', 'b'), T.assoc('M', 'X', 'c', 'Y', 'd', lmult=(0, 1), rmult=(1, None)),
+                   T.assoc('N', 'Y', 'e', 'Y', 'f', lmult=(1, 1))])
+    return {'spec': spec, 'opts': draw(_opts())}
+
+
 @st.composite
 def _opts(draw):
     return {'comments': draw(st.booleans()), 'dist_parens': draw(st.booleans()),
@@ -311,5 +366,6 @@ CLAUSES = [
     Clause('shipped-languages', check_roundtrip, kind='exhaustive', enumerate=_shipped, shards={'quick': 4, 'thorough': 4},
            space='coreLang and its union variant from the shipped .mar files (reference compiler output), single file and split over 4 files'),
     Clause('roundtrip', check_roundtrip, kind='random', strategy=roundtrip_cases, budget={'quick': 2500, 'thorough': 20000}),
+    Clause('freeform-trees', check_roundtrip, kind='random', strategy=freeform_cases, budget={'quick': 1500, 'thorough': 15000}),
     Clause('layouts', check_roundtrip, kind='random', strategy=layout_cases, budget={'quick': 1000, 'thorough': 8000}),
 ]
